@@ -849,3 +849,4 @@ MANIFEST = {
 MANIFEST["text"] += ' Partial unwinding: every history of <= 4 (5 thorough) events over enable / disable(1|2) / per-call activation of two rule-less (redefinition only) and two rule-carrying contexts on a fresh registry: after every history 4 probes (and the per-call conversion itself) equal the stack model (most recent rule owner wins, redefinitions of enabled contexts only).'
 MANIFEST["text"] += ' The in-place per-call form q.ito(unit, ctx) and failing per-call conversions are among the unwind events.'
 MANIFEST["text"] += ' The redefinition clause includes an offset unit redefined by a context (alone and stacked), with delta and difference probes.'
+MANIFEST["text"] += ' Compatible-unit listings are asked before the probe conversions inside each activation.'
